@@ -51,6 +51,14 @@ func (s *SSTableInfo) Overlaps(other *SSTableInfo) bool {
 		bytes.Compare(s.FirstKey, other.LastKey) > 0)
 }
 
+// olderThan reports whether this SSTable was created before the other one
+func (s *SSTableInfo) olderThan(other *SSTableInfo) bool {
+	if s.Timestamp != other.Timestamp {
+		return s.Timestamp < other.Timestamp
+	}
+	return s.Sequence < other.Sequence
+}
+
 // KeyRange returns a string representation of the key range in this SSTable
 func (s *SSTableInfo) KeyRange() string {
 	return fmt.Sprintf("[%s, %s]",
